@@ -622,6 +622,10 @@ theorem inv_clearNext {s : St} (h : Inv s) {t : Nat} (ht : (s.threads t).pc = .r
     have := hnoR u; simp only at hu
     rcases hu with hu | hu <;> rw [hu] at this <;> cases this
 
+/-- the ghost `owner` is not mentioned by `Inv` -/
+theorem inv_owner {s : St} (h : Inv s) (o : Option Nat) : Inv { s with owner := o } :=
+  ⟨h.single, h.runnerMap, h.succMap, h.waitOk, h.mapFresh, h.bounded, h.countZero, h.fresh, h.runnerItem⟩
+
 theorem inv_micro {s s' : St} (h : Inv s) (hm : Micro s s') : Inv s' := by
   cases hm with
   | alloc hm => exact inv_alloc h hm
@@ -633,7 +637,7 @@ theorem inv_micro {s s' : St} (h : Inv s) (hm : Micro s s') : Inv s' := by
   | finish r pc' ht hc hp =>
     exact inv_thread (inv_complete h ht (some r)) (t := _) ht _ rfl rfl hp
   | ret ht hc => exact inv_thread h ht _ rfl rfl (Or.inr rfl)
-  | clear ht => exact inv_clearNext h ht
+  | clear ht => exact inv_owner (inv_clearNext h ht) none
 
 theorem inv_reach_step {s s' : St} {a : Act} (h : Inv s) (hs : sys.step s a = some s') : Inv s' := by
   rcases step_micro hs with e | h1 | ⟨m, h1, h2⟩
